@@ -511,11 +511,43 @@ def _valid_samples(ctx, cg, n):
 def _fail(what, **tags):
     return (what, tags)
 
+_SPEC_CACHE = {}
+_SPEC_PENDING = None          # a list while the layout lines of a batch of cases are being collected
+
 def _spec1(fn, *args):
-    r = _spec([gen.F(fn, *args)])[0]
+    """one layout from the spec driver; results are cached, and in collection mode the request is only recorded
+    (a placeholder is returned), so that a whole batch of cases costs two driver runs instead of one per layout"""
+    line = gen.F(fn, *args)
+    r = _SPEC_CACHE.get(line)
+    if r is None:
+        if _SPEC_PENDING is not None:
+            _SPEC_PENDING.append(line)
+            return b""
+        r = _spec([line])[0]
+        _SPEC_CACHE[line] = r
     if not r.startswith("ok:x"):
         raise RuntimeError("spec driver: %s -> %s" % (fn, r))
     return bytes.fromhex(r[4:])
+
+def _prefetch_specs(cases, rounds=3):
+    """run the checks in collection mode until every layout they ask for is cached (layouts of containers are built
+    from the layouts of their elements, hence more than one round)"""
+    global _SPEC_PENDING
+    for _ in range(rounds):
+        _SPEC_PENDING = []
+        try:
+            for name, args in cases:
+                try:
+                    _CHECKS[name](args)
+                except Exception:
+                    pass
+            todo = sorted(set(_SPEC_PENDING))
+        finally:
+            _SPEC_PENDING = None
+        if not todo:
+            break
+        for l, r in zip(todo, _spec(todo)):
+            _SPEC_CACHE[l] = r
 
 def _mk_uart_word(kind, en, w):
     o = uart.UARTDataWord(ch11.TS_CH4 if kind == "rtc" else ch11.TS_IEEE1558 if kind == "ptp" else None, en)
@@ -873,7 +905,7 @@ def _c04_cases(ctx):
     bit, sub-channel and bus over their widths, both time-stamp kinds at boundaries, three network time codes,
     calendar days x times of day"""
     rng = ctx.rng
-    m = ctx.scale(1, 25) * (3 if getattr(ctx, "search_mode", False) else 1)
+    m = ctx.scale(3, 25) * (3 if getattr(ctx, "search_mode", False) else 1)
     cases = []
     for kind in ("rtc", "ptp", "none"):
         for en in (0, 1):
@@ -930,7 +962,7 @@ def _c04_cases(ctx):
     for k in range(100):                              # the hundredths byte for every k, at and around k*10^7
         for ns in (k * 10 ** 7, k * 10 ** 7 + 1, (k + 1) * 10 ** 7 - 1):
             cases.append(("tdf1", {"csd": rng.choice([DMY_CSD, DOY_CSD]), "seconds": rng.choice(TDF1_EDGES), "nanoseconds": ns}))
-    days = [0, 58, 59, 60, 364, 365, 789, 790, 11016, 11017, 19782, 47481] + [rng.randrange(47482) for _ in range(ctx.scale(100, 47482))]
+    days = [0, 58, 59, 60, 364, 365, 789, 790, 11016, 11017, 19782, 47481] + [rng.randrange(47482) for _ in range(ctx.scale(400, 47482))]
     if ctx.tier == "thorough":
         days = list(range(47482))
     for d in days:
@@ -939,7 +971,7 @@ def _c04_cases(ctx):
         for csd in (DMY_CSD, DOY_CSD, rng.getrandbits(32)):
             cases.append(("tdf1", {"csd": csd, "seconds": d * 86400 + tod, "nanoseconds": ns}))
     nss = [0, 1, 2, 3, 4, 5, 499999999, 500000000, 999999990, 999999997, 999999998, 999999999]
-    nss += [k * 10 ** 8 + e for k in range(1, 10) for e in (-1, 0, 1)] + [rng.randrange(10 ** 9) for _ in range(ctx.scale(150, 20000))]
+    nss += [k * 10 ** 8 + e for k in range(1, 10) for e in (-1, 0, 1)] + [rng.randrange(10 ** 9) for _ in range(ctx.scale(600, 20000))]
     for code in (0, 1, 2):
         for sec in (0, 2 ** 31, 2 ** 32 - 1):
             for ns in (0, 1, 999999999, rng.randrange(10 ** 9)):
@@ -961,7 +993,9 @@ def _c04_cases(ctx):
 
 def oracles_C04(ctx, hints):
     fails, seen, n = [], set(), 0
-    for name, args in _c04_cases(ctx):
+    cases = _c04_cases(ctx)
+    _prefetch_specs(cases)
+    for name, args in cases:
         n += 1
         r = _guard(_CHECKS[name])(args)
         if r:
